@@ -51,7 +51,7 @@ def generate(rng, tier):
             v["fn"] = v["fn"] % 3
             v["lowq"] = 1 + v["lowq"] % 2
             v["lorch"] = 1 + v["lorch"] % 2
-        cases.append({"kind": "attrs", "mode": 0, "present": dict(zip(KEYS, p)), "v": v,
+        cases.append({"kind": "attrs", "mode": 0, "present": dict(zip(KEYS, p)), "v": v, "shuffle": rng.randint(0, 10 ** 6) if rng.random() < 0.7 else None,
                       "desc": {"kind": "attrs", "n_present": sum(p), "bad_fn": bool(p[0] and v["fn"] == 3),
                                "bad_flag": bool((p[6] and v["lowq"] == 3) or (p[7] and v["lorch"] == 3))}})
     for i in range(60 if tier == "quick" else 600):      # flag form with arbitrary subsets of the optional flags: argparse defaults
@@ -165,6 +165,11 @@ def build_kwargs(case):
         if tr:
             m["Transform"] = tr
         kw["Merging"] = m
+    if case.get("shuffle") is not None:     # a dict / JSON file lists its keys in any order; only their presence and values matter
+        import random
+        items = list(kw.items())
+        random.Random(case["shuffle"]).shuffle(items)
+        kw = dict(items)
     return kw
 
 
